@@ -12,7 +12,7 @@ from . import common as K
 EXPLANATION = ("effects/alias analysis (engine D) over every public callable, event-order (typestate) analysis of fit/predict, "
                "constructor-contract and who-may-call checks; each obligation is established on every enumerated path")
 RULES = {
-    "R1": "no public function/method writes an array that may alias a parameter or a constructor-given attribute",
+    "R1": "no public function/method writes an array that may alias a parameter or a constructor-given attribute; cross_val_score fits clones only, never the caller's estimator (C12.R1)",
     "R2": "no global-state RNG call, no global statement, no store into a module-level container",
     "R3": "fit assigns every fitted attribute on every normal path, reads none before assigning it, stores only *_ attributes; "
           "only __init__/fit assign self.*",
@@ -543,6 +543,12 @@ def check(ctx):
     r4_constructor(ctx)
     r5_typestate(ctx)
     r6_rejection(ctx)
+    from . import c12
+    ctx.alias = {"R1": "R1", "R2": "R1"}      # purity extends to objects: cross_val_score never fits the caller's estimator, each split fits its own clone (C12.R1)
+    try:
+        c12.r1_r2_cross_val(ctx)
+    finally:
+        ctx.alias = {}
     from . import c13
     ctx.alias = {"R7": "R6"}          # "invalid regions are rejected": the check_region rule of C13.R7 is part of C20.R6
     try:
